@@ -8,7 +8,7 @@ VERIF = os.path.dirname(HERE)
 
 
 def main():
-    d = sys.argv[1]
+    d = os.path.abspath(sys.argv[1])
     checks = None
     for a in sys.argv[2:]:
         if a.startswith("--checks"):
